@@ -305,20 +305,23 @@ Fixpoint split_string (fuel : nat) (s : list Z) (acc : list Z) : option (list Z 
   match fuel with O => None | S f =>
     match s with
     | [] => None
-    | 34 :: r => Some (rev acc, r)
-    | 92 :: e :: r => split_string f r (e :: 92 :: acc)
-    | x :: r => split_string f r (x :: acc)
+    | x :: r =>
+      if x =? 34 then Some (rev acc, r) else
+      if x =? 92 then match r with e :: r' => split_string f r' (e :: 92 :: acc) | [] => None end
+      else split_string f r (x :: acc)
     end
   end.
 (* string: section 7, through [rfc8259_string] of Json/Codecs.v on the delimited text *)
 Definition json_string (s : list Z) : option (list Z) :=
   match s with
-  | 34 :: t =>
-    match split_string (S (length t)) t [] with
-    | Some (body, rest) => if rfc8259_string (34 :: body ++ [34]) then Some rest else None
-    | None => None
-    end
-  | _ => None
+  | x :: t =>
+    if x =? 34 then
+      match split_string (S (length t)) t [] with
+      | Some (body, rest) => if rfc8259_string (34 :: body ++ [34]) then Some rest else None
+      | None => None
+      end
+    else None
+  | [] => None
   end.
 
 (* number = [ minus ] int [ frac ] [ exp ];  int = zero / ( digit1-9 *DIGIT ) *)
@@ -326,22 +329,20 @@ Fixpoint skip_digits (s : list Z) : list Z :=
   match s with x :: r => if is_digit x then skip_digits r else s | [] => [] end.
 Definition json_digits1 (s : list Z) : option (list Z) :=      (* 1*DIGIT *)
   match s with x :: r => if is_digit x then Some (skip_digits r) else None | [] => None end.
+Definition hd_is (c : Z) (s : list Z) : bool := match s with x :: _ => x =? c | [] => false end.
 Definition json_number (s : list Z) : option (list Z) :=
-  let s1 := match s with 45 :: r => r | _ => s end in
+  let s1 := if hd_is 45 s then tl s else s in
   match s1 with
   | [] => None
   | d :: r =>
     let after_int := if d =? 48 then Some r else if (49 <=? d) && (d <=? 57) then Some (skip_digits r) else None in
     match after_int with None => None | Some s2 =>
-      let after_frac := match s2 with 46 :: r2 => json_digits1 r2 | _ => Some s2 end in
+      let after_frac := if hd_is 46 s2 then json_digits1 (tl s2) else Some s2 in
       match after_frac with None => None | Some s3 =>
-        match s3 with
-        | e :: r3 =>
-          if (e =? 101) || (e =? 69) then
-            json_digits1 (match r3 with sg :: r4 => if (sg =? 43) || (sg =? 45) then r4 else r3 | [] => r3 end)
-          else Some s3
-        | [] => Some s3
-        end
+        if hd_is 101 s3 || hd_is 69 s3 then
+          let r3 := tl s3 in
+          json_digits1 (if hd_is 43 r3 || hd_is 45 r3 then tl r3 else r3)
+        else Some s3
       end
     end
   end.
@@ -360,47 +361,37 @@ Fixpoint json_value (fuel : nat) (s : list Z) : option (list Z) :=
   match fuel with O => None | S f =>
     match s with
     | [] => None
-    | 123 :: r =>
-      match skip_ws r with
-      | 125 :: r1 => Some r1
-      | r1 => json_members f r1
-      end
-    | 91 :: r =>
-      match skip_ws r with
-      | 93 :: r1 => Some r1
-      | r1 => json_elements f r1
-      end
-    | 34 :: _ => json_string s
-    | 116 :: _ => strip_prefix lit_true s
-    | 102 :: _ => strip_prefix lit_false s
-    | 110 :: _ => strip_prefix lit_null s
-    | _ => json_number s
+    | c :: r =>
+      if c =? 123 then (let r1 := skip_ws r in if hd_is 125 r1 then Some (tl r1) else json_members f r1)
+      else if c =? 91 then (let r1 := skip_ws r in if hd_is 93 r1 then Some (tl r1) else json_elements f r1)
+      else if c =? 34 then json_string s
+      else if c =? 116 then strip_prefix lit_true s
+      else if c =? 102 then strip_prefix lit_false s
+      else if c =? 110 then strip_prefix lit_null s
+      else json_number s
     end
   end
 with json_members (fuel : nat) (s : list Z) : option (list Z) :=      (* at a member; up to and including '}' *)
   match fuel with O => None | S f =>
     match json_string s with None => None | Some s1 =>
-      match skip_ws s1 with
-      | 58 :: s2 =>
-        match json_value f (skip_ws s2) with None => None | Some s3 =>
-          match skip_ws s3 with
-          | 125 :: s4 => Some s4
-          | 44 :: s4 => json_members f (skip_ws s4)
-          | _ => None
-          end
+      let s1' := skip_ws s1 in
+      if hd_is 58 s1' then
+        match json_value f (skip_ws (tl s1')) with None => None | Some s3 =>
+          let s3' := skip_ws s3 in
+          if hd_is 125 s3' then Some (tl s3')
+          else if hd_is 44 s3' then json_members f (skip_ws (tl s3'))
+          else None
         end
-      | _ => None
-      end
+      else None
     end
   end
 with json_elements (fuel : nat) (s : list Z) : option (list Z) :=     (* at an element; up to and including ']' *)
   match fuel with O => None | S f =>
     match json_value f s with None => None | Some s1 =>
-      match skip_ws s1 with
-      | 93 :: s2 => Some s2
-      | 44 :: s2 => json_elements f (skip_ws s2)
-      | _ => None
-      end
+      let s1' := skip_ws s1 in
+      if hd_is 93 s1' then Some (tl s1')
+      else if hd_is 44 s1' then json_elements f (skip_ws (tl s1'))
+      else None
     end
   end.
 
@@ -409,4 +400,13 @@ Definition rfc8259_document (s : list Z) : bool :=
   match json_value (S (length s)) (skip_ws s) with
   | Some r => match skip_ws r with [] => true | _ => false end
   | None => false
+  end.
+
+(* every string of the tree is well-formed UTF-8 (RFC 3629): the hypothesis of the strictness clause *)
+Fixpoint utf8_value (v : value) : bool :=
+  match v with
+  | VString s => utf8_valid s
+  | VTable fs => forallb (fun p => utf8_value (snd p)) fs
+  | VOffVec l => forallb utf8_value l
+  | _ => true
   end.
